@@ -139,12 +139,24 @@ Qed.
 
 Lemma lget_safe : forall T a n s, safe_at safe09 s (LGet T a n) = true.
 Proof. reflexivity. Qed.
+Lemma lhas_safe : forall T a n s, safe_at safe09 s (LHas T a n) = true.
+Proof. reflexivity. Qed.
 
 Lemma exists_after_apply : forall s o T, exists_tab s T = true -> exists_tab (fst (apply s o)) T = true.
 Proof.
   intros s o T E. unfold apply. destruct (exists_tab s (ltable o)); auto.
   destruct (lrun o (base_of s (lgroup o)) (comp s (lgroup o))). simpl. destruct T; auto.
 Qed.
+
+(* (stated with an abstract outcome so that no conversion ever looks inside `apply`) *)
+Lemma expect09_get : forall t a n oc, expect09 t (LGet Pub a n) oc = outcome_eqb oc OSame.
+Proof. reflexivity. Qed.
+Lemma expect09_has : forall t a n oc, expect09 t (LHas Pub a n) oc = outcome_eqb oc (OBool (is_val (canon a n))).
+Proof. reflexivity. Qed.
+Lemma expect09_init : forall t k oc, expect09 t (LInit k Pub) oc = outcome_eqb oc OOk.
+Proof. reflexivity. Qed.
+Lemma exists_pub : forall s, exists_tab s Pub = true.
+Proof. reflexivity. Qed.
 
 Lemma step_good09 : forall s e, Good09 s -> ev_in09 e = true -> safe_ev09 s e = true ->
   Good09 (fst (step s e)) /\ expected09 e (snd (step s e)) = true.
@@ -157,38 +169,41 @@ Proof.
   3: discriminate I.
   3: discriminate I.
   - (* Read *)
-    split; [apply AG; [exact G|exact I|reflexivity]|].
+    split; [apply AG; [exact G|exact I|apply lget_safe]|].
     destruct T; unfold expected09; try reflexivity.
-    apply (AE s (LGet Pub a n) G I eq_refl eq_refl).
+    rewrite <- (expect09_get (proj (lgroup (LGet Pub a n)) s) a n).
+    apply (AE s (LGet Pub a n) G I (lget_safe Pub a n s) (exists_pub s)).
   - (* Has *)
-    split; [apply AG; [exact G|exact I|reflexivity]|].
+    split; [apply AG; [exact G|exact I|apply lhas_safe]|].
     destruct T; unfold expected09; try reflexivity.
-    apply (AE s (LHas Pub a n) G I eq_refl eq_refl).
+    rewrite <- (expect09_has (proj (lgroup (LHas Pub a n)) s) a n).
+    apply (AE s (LHas Pub a n) G I (lhas_safe Pub a n s) (exists_pub s)).
   - (* Import *)
     assert (Hr : forall a n p, In (a, n, p) (import_reads m) ->
                  lop_in lops09 (LGet Pub a n) = true /\ (forall s', safe_at safe09 s' (LGet Pub a n) = true)
                  /\ forall t oc, expect09 t (LGet Pub a n) oc = true -> oc = OSame).
-    { intros a n p H. split; [eapply import_reads_in; exact H|]. split; [intros; reflexivity|].
-      intros t oc X. apply outcome_eqb_eq in X. exact X. }
+    { intros a n p H. split; [eapply import_reads_in; exact H|]. split; [intros; apply lget_safe|].
+      intros t oc X. rewrite expect09_get in X. apply outcome_eqb_eq in X. exact X. }
     pose proof (do_reads_good lops09 [P1] safe09 expect09 R09 CHK09 (import_reads m) s Pub OSame G
                   (fun a n p H => conj (proj1 (Hr a n p H)) (proj1 (proj2 (Hr a n p H))))) as G1.
-    pose proof (do_reads_same lops09 [P1] safe09 expect09 R09 CHK09 GRP09 (import_reads m) s Pub G eq_refl Hr) as O1.
+    pose proof (do_reads_same lops09 [P1] safe09 expect09 R09 CHK09 GRP09 (import_reads m) s Pub G (exists_pub s) Hr) as O1.
     destruct (do_reads s Pub (import_reads m) OSame) as [s1 o]. cbn [fst snd] in *. subst o.
     split; [exact G1|reflexivity].
   - (* Calc *)
     destruct (exists_tab s T) eqn:E; [|split; [exact G| destruct T; reflexivity]].
     assert (Hr : forall a n p, In (a, n, p) (calc_reads c) ->
                  lop_in lops09 (LGet T a n) = true /\ (forall s', safe_at safe09 s' (LGet T a n) = true)).
-    { intros a n p H. split; [eapply calc_reads_in; [exact I|exact H]|intros; reflexivity]. }
+    { intros a n p H. split; [eapply calc_reads_in; [exact I|exact H]|intros; apply lget_safe]. }
     split; [apply (do_reads_good lops09 [P1] safe09 expect09 R09 CHK09); [exact G|exact Hr]|].
     destruct T; unfold expected09; try reflexivity.
     rewrite (do_reads_same lops09 [P1] safe09 expect09 R09 CHK09 GRP09 (calc_reads c) s Pub G E); [reflexivity|].
     intros a n p H. destruct (Hr a n p H) as [H1 H2]. split; [exact H1|]. split; [exact H2|].
-    intros t oc X. apply outcome_eqb_eq in X. exact X.
+    intros t oc X. rewrite expect09_get in X. apply outcome_eqb_eq in X. exact X.
   - (* Init *)
     split; [apply AG; [exact G|exact I|exact S]|].
     destruct T; unfold expected09; try reflexivity.
-    apply (AE s (LInit k Pub) G I S eq_refl).
+    rewrite <- (expect09_init (proj (lgroup (LInit k Pub)) s) k).
+    apply (AE s (LInit k Pub) G I S (exists_pub s)).
   - (* New *)
     apply table_eqb_eq in I. subst T.
     destruct (exists_tab s P1) eqn:E; [split; [exact G|reflexivity]|].
